@@ -41,7 +41,7 @@ func (vm *varyMatcher) VaryHeadersMatch(entries ResponseRefs, reqHdr http.Header
 		bVary := strings.TrimSpace(b.Vary)
 
 		// Responses with Vary: "*" are least preferred
-		switch aIsStar, bIsStar := aVary == "*", bVary == "*"; {
+		switch aIsStar, bIsStar := varyHasStar(aVary), varyHasStar(bVary); {
 		case aIsStar && !bIsStar:
 			return 1 // b preferred
 		case bIsStar && !aIsStar:
@@ -70,7 +70,7 @@ func (vm *varyMatcher) VaryHeadersMatch(entries ResponseRefs, reqHdr http.Header
 }
 
 func (vm *varyMatcher) varyHeadersMatchOne(entry *ResponseRef, reqHeader http.Header) bool {
-	if entry.Vary == "*" {
+	if varyHasStar(entry.Vary) {
 		return false // Vary: "*" never matches
 	}
 	for field, value := range entry.VaryResolved {
@@ -86,4 +86,16 @@ func (vm *varyMatcher) varyHeadersMatchOne(entry *ResponseRef, reqHeader http.He
 		}
 	}
 	return true
+}
+
+// varyHasStar reports whether a Vary field value has the member "*", alone or
+// in a list (RFC 9110 §12.5.5): such a response cannot be selected by comparing
+// request header fields.
+func varyHasStar(vary string) bool {
+	for name := range TrimmedCSVSeq(vary) {
+		if name == "*" {
+			return true
+		}
+	}
+	return false
 }
